@@ -165,7 +165,7 @@ func runC10(c *Ctx, i int, r *rand.Rand) {
 	if !c.Thorough() && L == 1<<20 && chance(r, 85) {
 		L = pick(r, []uint32{1 << 10, 4 << 10, 100 << 10})
 	}
-	family := pick(r, []string{"size", "size", "size", "gzip-ratio", "gzip-ratio", "json-expansion", "big-error", "calibrated", "calibrated"})
+	family := pick(r, []string{"size", "size", "size", "gzip-ratio", "gzip-ratio", "json-expansion", "big-error", "calibrated", "calibrated", "declared-length"})
 	dirReq := chance(r, 50)
 	mname := pick(r, []string{"Unary", "Unary", "ClientStream", "ServerStream", "Bidi"})
 	m := kitchenInfo[mname]
@@ -221,6 +221,10 @@ func runC10(c *Ctx, i int, r *rand.Rand) {
 		cfg.Protocols = []string{pick(r, []string{"connect", "connect", "grpc", "grpcweb"})}
 	}
 	compressible := family == "gzip-ratio"
+	if family == "size" && chance(r, 35) {
+		// random bytes declared (and sent) gzip: the wire form of a flagged frame is as large as the message
+		creq.Comp, script.Comp = "gzip", "gzip"
+	}
 	if compressible {
 		creq.Comp = "gzip"
 		script.Comp = "gzip"
@@ -292,6 +296,10 @@ func runC10(c *Ctx, i int, r *rand.Rand) {
 		return
 	}
 	creq.UseRawBody, creq.RawBody = true, built.Raw
+	if family == "declared-length" {
+		c10DeclaredLength(c, i, r, cfg, creq, script, L)
+		return
+	}
 	var reqPlain, respPlain [][]byte
 	for _, x := range creq.Msgs {
 		b, _ := encodeMsg(creq.Codec, x)
@@ -435,6 +443,74 @@ func runC10(c *Ctx, i int, r *rand.Rand) {
 				c.Violate(i, "oversized-request-message-delivered/"+feat, detail())
 			}
 		}
+	}
+}
+
+// c10DeclaredLength: an envelope (or Content-Length) that announces far more than the limit, followed by a few bytes.
+// Nothing that large may be reserved on the strength of the announcement; a calibration run is pointless (the body is
+// short under any limit), so only the memory clause and the absence of a panic are judged, and the outcome must not be OK.
+func c10DeclaredLength(c *Ctx, i int, r *rand.Rand, cfg *SvcConfig, creq *ClientReq, script *BackendScript, L uint32) {
+	announce := pick(r, []uint32{L + 1, 10 * L, 64 << 20, 1 << 30, 0xFFFFFFFF})
+	dirReq := chance(r, 60)
+	flag := byte(0)
+	if chance(r, 50) {
+		flag = 1
+	}
+	var hdr [5]byte
+	hdr[0] = flag
+	hdr[1], hdr[2], hdr[3], hdr[4] = byte(announce>>24), byte(announce>>16), byte(announce>>8), byte(announce)
+	frame := append(hdr[:], []byte("tiny")...)
+	if dirReq {
+		if !creq.Form.Enveloped() {
+			return
+		}
+		if flag == 1 {
+			creq.Comp = "gzip"
+		}
+		creq.RawBody = frame
+		creq.DeclLen = chance(r, 50)
+		script.FailOnBad = true // like a real server, the backend refuses a body that ends inside a frame
+	} else {
+		if flag == 1 {
+			script.Comp = "gzip"
+		}
+		script.UseRaw, script.RawBody, script.RawComplete = true, frame, false
+	}
+	cc := *cfg
+	cc.Limit = L
+	c10MaxCap = 0
+	c10Handed = c10Handed[:0]
+	e, err := runRPC(&cc, creq, script, r, nil)
+	if err != nil {
+		return
+	}
+	maxCap := c10MaxCap
+	for k, b := range c10Handed {
+		if b.Cap() > maxCap {
+			maxCap = b.Cap()
+		}
+		c10Handed[k] = nil
+	}
+	c.Eval()
+	c.Count("memory-checked")
+	c.Count("declared-length-checked")
+	dir := map[bool]string{true: "request", false: "response"}[dirReq]
+	detail := func() string {
+		return fmt.Sprintf("limit L=%d; a %s frame with flag %d announces %d bytes and carries 4\nlargest pooled buffer capacity=%d (bound %d)\n%s", L, dir, flag, announce, maxCap, 4*int(L)+64<<10, e.Describe())
+	}
+	c.Nontrivial(fmt.Sprintf("declared|%d|%s|%d|%d|%s", L, dir, flag, announce, creq.Form))
+	if e.Panic != nil {
+		c.Violate(i, "transcoder-panic/"+panicSite(e.Stack), detail())
+		return
+	}
+	if maxCap > 4*int(L)+64<<10 {
+		c.Violate(i, "pooled-buffer-exceeds-bound/declared-length/"+dir, detail())
+	}
+	if !dirReq && (script.Comp == "" || e.Backend.Obs.UsedComp != "") && e.Backend.Obs.Invocations > 0 && e.Backend.Obs.Proto != "connect-unary" && e.Backend.Obs.Proto != "rest" && e.Out.OK() {
+		c.Violate(i, "short-frame-delivered-as-success/declared-length/"+dir, detail())
+	}
+	if dirReq && e.Out.OK() {
+		c.Violate(i, "short-frame-delivered-as-success/declared-length/"+dir, detail())
 	}
 }
 
